@@ -1,99 +1,130 @@
 /* C19: spif_socket_accept - "failed accepts leak nothing, every descriptor the library opened is closed by the
  * time its object is deleted, the peer address is read inside its buffer".
  *
- * Tier B: the EAGAIN retry is a do-while (no loop contract possible, see lifecycle.c) and the kernel may answer
- * EAGAIN for ever; bound: at most 2 consecutive EAGAIN/EWOULDBLOCK answers, the name-service retry loop and
- * the exact strlen of the peer path unwound (<= 20).  Everything else symbolic: any ghost descriptor table,
- * any listener object satisfying SOCK_INV with an open descriptor and no remote URL, any family/type flags,
- * any peer address bytes and any reported address length.  Kernel = stub model (env_net.h section 4).
+ * Tier P: the EAGAIN retry (do-while), the EINTR retry of spif_socket_close and the resolver retry of
+ * spif_url_init_from_ipaddr carry loop contracts (annot/socket.c.net.ann; applied by `prepass: --dfcc harness
+ * --apply-loop-contracts`, plain harness otherwise); the exact strlen model below has its own loop contract.
+ * The kernel may answer EAGAIN any number of times (no termination measure: partial correctness).
+ * Symbolic: any ghost descriptor table, any listener object satisfying SOCK_INV with an open descriptor and no
+ * remote URL, any family/type flags, any peer address bytes and any reported address length.
+ * Kernel = stub model (env_net.h section 4; decisions from the tape, the number of EAGAIN answers free).
+ * Native replay (native: self): same harness and ghost kernel against the real socket.c.
  *
  *   accept.fail      accept() fails for good: NULL, no descriptor slot changes, nothing allocated survives
  *   accept.ok_fd     success: descriptor accounting (listener unchanged, result owns the new descriptor, no
- *                    other slot changes)
+ *                    other slot changes - the descriptor spif_socket_dup() duplicated is closed again)
  *   accept.ok_unix   success, AF_UNIX listener: memory safety of building the peer URL from the address buffer
  *   accept.ok_inet   success, AF_INET listener: the same for the IP branch
  */
 /*@unit
 name: accept.fail
-define: NET_KERNEL, NET_OWN_ACCEPT, U_FAIL
+define: NET_KERNEL, NET_TAPE, VG_TAPE_N=64, NET_GHOST_CLOCK, NET_OWN_ACCEPT, U_FAIL
 src: socket.c
-tier: B
-bound: at most 2 EAGAIN answers before the final failure; retry loops unwound 20 with unwinding assertions
-unwind: 20
+prepass: --dfcc harness --apply-loop-contracts --no-malloc-may-fail
 backend: sat
 checks_off: --conversion-check
 flags: --memory-leak-check
+native: self
 funcs: spif_socket_accept
 */
 /*@unit
 name: accept.ok_fd
-define: NET_KERNEL, NET_OWN_ACCEPT, U_OK, U_FDS
+define: NET_KERNEL, NET_TAPE, VG_TAPE_N=64, NET_GHOST_CLOCK, NET_OWN_ACCEPT, U_OK, U_FDS
 src: socket.c
-tier: B
-bound: at most 2 EAGAIN answers before the connection; listener flags without a family bit (no peer URL is built); loops unwound 20 with unwinding assertions
-unwind: 20
+prepass: --dfcc harness --apply-loop-contracts --no-malloc-may-fail
 backend: sat
 checks_off: --conversion-check
-funcs: spif_socket_accept, spif_socket_dup, spif_socket_set_nbio
+native: self
+funcs: spif_socket_accept, spif_socket_dup, spif_socket_close, spif_socket_set_nbio
 */
 /*@unit
 name: accept.ok_unix
-define: NET_KERNEL, NET_OWN_ACCEPT, U_OK, U_UNIX
+define: NET_KERNEL, NET_TAPE, VG_TAPE_N=64, NET_GHOST_CLOCK, NET_OWN_ACCEPT, U_OK, U_UNIX
 src: socket.c
-tier: B
-bound: at most 2 EAGAIN answers before the connection; AF_UNIX listener; peer address: any bytes in the whole buffer handed to accept(), any reported length; loops (exact strlen of the peer path) unwound 112 with unwinding assertions
-unwind: 112
+prepass: --dfcc harness --apply-loop-contracts --no-malloc-may-fail
 backend: sat
 checks_off: --conversion-check
+native: self
 funcs: spif_socket_accept, spif_url_new_from_unixaddr, spif_url_init_from_unixaddr
 */
 /*@unit
 name: accept.ok_inet
-define: NET_KERNEL, NET_OWN_ACCEPT, U_OK, U_INET
+define: NET_KERNEL, NET_TAPE, VG_TAPE_N=64, NET_GHOST_CLOCK, NET_OWN_ACCEPT, U_OK, U_INET
 src: socket.c
-tier: B
-bound: at most 2 EAGAIN answers before the connection; AF_INET listener; peer address: any 16 bytes; resolver answers NULL / TRY_AGAIN / a record in any sequence; loops unwound 20 with unwinding assertions
-unwind: 20
+prepass: --dfcc harness --apply-loop-contracts --no-malloc-may-fail
 backend: sat
 checks_off: --conversion-check
+native: self
 funcs: spif_socket_accept, spif_url_new_from_ipaddr, spif_url_init_from_ipaddr
 */
 #define VERIF_OWN_STRLEN
 #include "vprelude.h"
-/* exact libc for the bounded run */
-size_t strlen(const char *s) { size_t n = 0; while (s[n]) n++; return n; }
-size_t strnlen(const char *s, size_t m) { size_t n = 0; while (n < m && s[n]) n++; return n; }
 #include "env_net.h"
 #include "socket.h"
 
-/* accept(): as env_net.h, but at most 2 EAGAIN/EWOULDBLOCK answers per run, and (U_FAIL) never a connection */
-unsigned vg_accept_again;
+#ifdef VERIF_NATIVE
+# define VLOOP(x)
+# define strlen vg_m_strlen
+# define spif_url_dup vg_m_url_dup
+# define spif_str_init vg_m_str_init
+# define spif_str_new_from_ptr vg_m_str_new_from_ptr
+# define spif_str_new_from_num vg_m_str_new_from_num
+unsigned w_again_n;                 /* native replay: number of EAGAIN answers before the final one */
+#else
+# define VLOOP(x) x
+spif_bool_t spif_obj_set_class(spif_obj_t self, spif_class_t cls) { self->cls = cls; return TRUE; }
+size_t strnlen(const char *s, size_t m) { return nondet_size_t(); }
+#endif
+/* exact strlen: every byte read is bounds-checked.  Loop contract: n stays inside the object; it is inductive
+ * because the LAST byte of the object is NUL (what spif_socket_accept guarantees since fix 2e1519d: a zeroed buffer
+ * one byte longer than what the kernel may write) - for an object that does not end in NUL the base case fails. */
+size_t strlen(const char *s)
+{
+    size_t n = 0;
+    while (s[n])
+    VLOOP(__CPROVER_assigns(n))
+    VLOOP(__CPROVER_loop_invariant(n < VREMAIN(s) && s[VREMAIN(s) - 1] == 0))
+    VLOOP(__CPROVER_decreases(VREMAIN(s) - n))
+    {
+        n++;
+#ifndef VERIF_NATIVE                 /* (natively AddressSanitizer judges the read) */
+        __CPROVER_assert(n < VREMAIN(s), "strlen: the string is terminated inside its object");
+#endif
+    }
+    return n;
+}
+
+/* accept(): as env_net.h; EAGAIN any number of times (cbmc) / w_again_n times (native), then failure or a connection */
 int accept(int fd, struct sockaddr *addr, socklen_t *len)
 {
     if (!VG_FD_OPEN(fd)) { vg_errno = EBADF; return -1; }
-#ifdef U_FAIL
-    _Bool fail = 1;
+#ifdef VERIF_NATIVE
+    if (vg_accept_again < w_again_n) { vg_accept_again++; vg_errno = EAGAIN; return -1; }
 #else
-    _Bool fail = nondet_bool();
+    if (nondet_bool()) { vg_accept_again++; vg_errno = nondet_bool() ? EAGAIN : EWOULDBLOCK; return -1; }
 #endif
-    if (fail && vg_accept_again < 2 && nondet_bool()) { vg_accept_again++; vg_errno = EAGAIN; return -1; }
-#ifdef U_OK
-    fail = 0;                                        /* ... then the connection arrives */
-#endif
-    if (fail) { vg_errno = vg_any_errno(); __CPROVER_assume(vg_errno != EAGAIN && vg_errno != EWOULDBLOCK); return -1; }
+#ifdef U_FAIL
+    { vg_errno = vg_any_errno(); __CPROVER_assume(vg_errno != EAGAIN && vg_errno != EWOULDBLOCK); return -1; }
+#else
     __CPROVER_assert(addr != NULL && len != NULL && __CPROVER_w_ok(addr, *len), "accept: address buffer writable for *len bytes");
     /* the kernel writes at most *len bytes: arbitrary bytes over a prefix of the buffer (assigned as nondet
      * structs; __CPROVER_havoc_slice turned out to disturb the byte BEHIND the slice as well) */
+# ifdef VERIF_NATIVE
+    memset(addr, 0x41, *len);
+# else
     if (*len >= sizeof(struct sockaddr_un)) { struct sockaddr_un any_un; *(struct sockaddr_un *) addr = any_un; }
     else if (*len >= sizeof(struct sockaddr)) { struct sockaddr any_sa; *addr = any_sa; }
-    *len = nondet_uint();                            /* the peer's real address length (may exceed the buffer) */
+# endif
+    *len = (socklen_t) (VG_NL() & 0x7fffffffL);       /* the peer's real address length (may exceed the buffer) */
     return vg_new_fd();
+#endif
 }
 
-/* ---- models: url ownership (C05.url_dup / C06.url_del), str constructors (fresh terminated copy), resolver ---- */
-spif_bool_t spif_obj_set_class(spif_obj_t self, spif_class_t cls) { self->cls = cls; return TRUE; }
+/* ---- models: url ownership (C05.url_dup / C06.url_del), str constructors (fresh terminated copy) ---- */
 spif_url_t spif_url_dup(spif_url_t self) { return (spif_url_t) calloc(1, sizeof(spif_const_url_t)); }
+#ifndef VERIF_NATIVE
 spif_class_t SPIF_CLASS_VAR(url);
+#endif
 spif_bool_t spif_str_init(spif_str_t self) { self->s = NULL; self->len = 0; self->size = 0; return TRUE; }
 spif_str_t spif_str_new_from_ptr(spif_charptr_t old)
 {
@@ -111,23 +142,13 @@ spif_str_t spif_str_new_from_num(long num)
     r->len = 1; r->size = 2; r->s = malloc(2); r->s[1] = 0;
     return r;
 }
-static struct hostent vg_hostent; static char vg_hostname[8];
-struct hostent *gethostbyaddr(const void *a, socklen_t l, int t)
-{
-    __CPROVER_assert(__CPROVER_r_ok(a, l), "gethostbyaddr: address readable");
-    if (nondet_bool()) { vg_h_errno = nondet_bool() ? TRY_AGAIN : HOST_NOT_FOUND; return NULL; }
-    vg_hostname[7] = 0; vg_hostent.h_name = nondet_bool() ? NULL : vg_hostname;
-    return &vg_hostent;
-}
-char *inet_ntoa(struct in_addr in) { static char b[16]; b[15] = 0; return b; }
 
-#include "rawsrc/socket.c"
+#ifdef VERIF_NATIVE
+# include "rawsrc/socket.c"
+#else
+# include "src/socket.c"
+#endif
 
-static void any_table(void)
-{
-    vg_fd_open[0] = nondet_bool(); vg_fd_open[1] = nondet_bool(); vg_fd_open[2] = nondet_bool(); vg_fd_open[3] = nondet_bool();
-    vg_fd_open[4] = nondet_bool(); vg_fd_open[5] = nondet_bool(); vg_fd_open[6] = nondet_bool(); vg_fd_open[7] = nondet_bool();
-}
 #define SLOT_KEPT(before) (vg_k >= VG_NFD || vg_fd_open[vg_k] == (before))
 
 void harness(void)
@@ -135,13 +156,19 @@ void harness(void)
     _Bool slot_before;
     spif_socket_t s = malloc(sizeof(spif_const_socket_t)), t;
     int fd0;
-    libast_debug_level = nondet_uint();          /* every run-time debug level (globals start at 0 in a plain harness) */
-    any_table();
+    libast_debug_level = VND(uint, debug_level);
+    vg_fd_open[0] = VND(bool, open0); vg_fd_open[1] = VND(bool, open1); vg_fd_open[2] = VND(bool, open2); vg_fd_open[3] = VND(bool, open3);
+    vg_fd_open[4] = VND(bool, open4); vg_fd_open[5] = VND(bool, open5); vg_fd_open[6] = VND(bool, open6); vg_fd_open[7] = VND(bool, open7);
+    VG_TAPE_FILL();
+#ifdef VERIF_NATIVE
+    w_again_n = (unsigned) vn_get("vg_accept_again", 0);
+    if (w_again_n > 1000) w_again_n = 1000;
+#endif
     SPIF_CLASS_VAR(socket) = &s_class;
     s->parent.cls = SPIF_CLASS_VAR(socket);
-    s->fd = nondet_int(); s->fam = nondet_int(); s->type = nondet_int(); s->proto = nondet_int();
-    s->flags = nondet_uint(); s->len = 0; s->addr = NULL;
-    s->local_url = nondet_bool() ? NULL : calloc(1, sizeof(spif_const_url_t));
+    s->fd = VND(int, s_fd); s->fam = VND(int, s_fam); s->type = VND(int, s_type); s->proto = VND(int, s_proto);
+    s->flags = VND(uint, s_flags); s->len = 0; s->addr = NULL;
+    s->local_url = VND(bool, s_has_lurl) ? calloc(1, sizeof(spif_const_url_t)) : NULL;
     s->remote_url = NULL;                                        /* a listener has no peer */
     __CPROVER_assume(VG_FD_OPEN(s->fd));
 #if defined(U_FDS)
@@ -152,12 +179,14 @@ void harness(void)
     __CPROVER_assume((s->flags & SPIF_SOCKET_FLAGS_FAMILY_INET) != 0);
 #endif
     fd0 = s->fd; vg_accept_again = 0;
+    vg_k = VND(size_t, k);
     __CPROVER_assume(vg_k < VG_NFD);
     slot_before = vg_fd_open[vg_k];
 
     t = spif_socket_accept(s);
 
-    __CPROVER_assert(s->fd == fd0 && vg_fd_open[fd0], "accept: the listener keeps its open descriptor");
+    /* (descriptor facts are stated for the arbitrary slot vg_k: the loop contracts keep track of that slot) */
+    __CPROVER_assert(s->fd == fd0 && ((int) vg_k != fd0 || vg_fd_open[vg_k]), "accept: the listener keeps its open descriptor");
 #ifdef U_FAIL
     __CPROVER_assert(t == NULL, "accept: a failed accept returns no object");
     __CPROVER_assert(SLOT_KEPT(slot_before), "accept: a failed accept changes no descriptor slot");
@@ -165,7 +194,8 @@ void harness(void)
     free(s->local_url); free(s);        /* what the caller owns; a failed accept must have left nothing else (leak check) */
 #else
     __CPROVER_assert(t != NULL && t != s, "accept: a new socket object for the connection");
-    __CPROVER_assert(VG_FD_OPEN(t->fd) && t->fd != fd0, "accept: the new object owns an open descriptor of its own");
+    __CPROVER_assert(VG_FD_VALID(t->fd) && t->fd != fd0 && ((int) vg_k != t->fd || vg_fd_open[vg_k]),
+                     "accept: the new object owns an open descriptor of its own");
     __CPROVER_assert((int) vg_k == t->fd || SLOT_KEPT(slot_before),
                      "accept: no descriptor slot changes except the new connection's (nothing opened and orphaned)");
     __CPROVER_assert((t->flags & SPIF_SOCKET_FLAGS_LISTEN) == 0, "accept: the connection socket is not a listener");
